@@ -20,7 +20,7 @@ ASSUMPTIONS = [
 ]
 EXHAUSTIVE_WHEN_PARTS = True
 
-FORMS = ["numeric", "backward_label", "forward_label"]
+FORMS = ["numeric", "backward_label", "forward_label", "backward_label_expr", "backward_label_macro"]
 RELOCS = ["none", "reloc_rom", "reloc_rom_near", "reloc_ram", "org_ram", "reloc_ram_near_storage", "resume_after_reloc", "resume_after_reloc_gap"]
 
 
@@ -113,6 +113,21 @@ def build(rom: str, m: str, d: int, place: int, form: str, reloc: str):
         if target < 0:
             return None
         return head + f"{m} {target:#08x}\n", run, target
+    if form == "backward_label_expr":
+        # the target is written as a chain of additions and subtractions over another label (left to right: anchor - 8 + 2 = anchor - 6)
+        n = -d - 2
+        if n < 6:
+            return None
+        chain = ["anchor - 8 + 2", "anchor - 3 - 3", "anchor + 2 - 8", "anchor - 16 + 12 - 2", "anchor - 2 * 3", "anchor - 4 - 4 + 2"][d % 6]
+        src = head + "tgt:\n.db 1, 2, 3, 4, 5, 6\nanchor:\n" + filler(n - 6) + f"{m} {chain}\n"
+        return src, adv(rom, run, n), run
+    if form == "backward_label_macro":
+        # the branch stands in a macro; its target is an argument, and the call site's label names are the macro's parameter names
+        n = -d - 2
+        if n < 0:
+            return None
+        src = head + f".macro cdown(loop, exit) {{\n{m} exit\n}}\n" + "loop:\n" + filler(n) + "retry:\ncdown(retry, loop)\n"
+        return src, adv(rom, run, n), run
     if form == "backward_label":
         n = -d - 2
         if n < 0:
@@ -193,7 +208,7 @@ def run_shard(shard: dict) -> Res:
         for reloc in RELOCS:
             for d in displacements(shard["tier"], m, form):
                 judge(res, rom, m, d, place, form, reloc)
-    b = build(rom, m, -5, placements(rom)[2], form, "none") or build(rom, m, 5, placements(rom)[2], form, "none")
+    b = build(rom, m, -5, placements(rom)[2], form, "none") or build(rom, m, 5, placements(rom)[2], form, "none") or build(rom, m, -20, placements(rom)[2], form, "none")
     res.sample({"rom": rom, "src": b[0], "run": hex(b[1]), "target": hex(b[2])})
     return res
 
